@@ -238,6 +238,19 @@ class Exprs:
             return r if isinstance(op, ast.Eq) else (not r)
         if isinstance(op, (ast.In, ast.NotIn)):
             self.check_container(b, a, env, node)
+            # definite `'x' in s` for a single constant character
+            if isinstance(a, Str) and isinstance(b, Str):
+                ch = S.const_value(env, a)
+                if ch is not None and len(ch) == 1:
+                    one = self.B.cls_of_chars(ch)
+                    if S.none_in(env, b, one):
+                        r = False
+                    else:
+                        lo = b.lo or 0
+                        cert = [c for i, c in enumerate(b.pre) if i < lo] + ([c for j, c in enumerate(b.suf) if j < lo] if not b.fixed else [])
+                        r = True if any(env.cls(c) == one for c in cert) else None
+                    if r is not None:
+                        return r if isinstance(op, ast.In) else (not r)
             return None
         if isinstance(op, (ast.Is, ast.IsNot)):
             if a is NONE and b is NONE:
@@ -398,7 +411,7 @@ class Exprs:
             if isinstance(a, (Bool, Int)) and isinstance(b, (Bool, Int)):
                 return Int()
             if isinstance(a, Ext) and isinstance(b, Ext):
-                return Ext('flags')
+                return Ext('flags:%s|%s' % (a.name.replace('flags:', ''), b.name.replace('flags:', '')))
             self.ctx.raise_('TypeError', node, env, 'bit op %r %r' % (a, b))
             return TOP
         return TOP
